@@ -90,6 +90,7 @@ def showFull (k : Kind) (s : FState) : String :=
   match k with
   | .chol => s!"st {b01 s.solved} {b01 s.useAll} list " ++ (match s.list with | none => "null" | some l => showList l)
   | .gso => s!"st {b01 s.solved} {b01 s.useAll} list " ++ showList (sortDedup (s.list.getD []))
+              ++ s!" err {b01 (s.err != 0)}"
 
 def showSvd (nullity : Nat) (s : SState) : String :=
   -- `minV` of an EARLIER input survives `reset`; it equals the plain V only if saved from the current data
